@@ -22,6 +22,7 @@ def cases(rng, tier):
             ("emacros", G.gen_emacros), ("forwarding", G.gen_forwarding), ("autopush", G.gen_autopush)]
     cs = family_cases(rng, fams, n, faults=0.7)
     cs += family_cases(rng, [("nested-frames", G.gen_nested_frames), ("selfshift", G.gen_selfshift)], n // 2, faults=0.3)
+    cs += family_cases(rng, [("missing-args", G.gen_missing_args)], n // 3, faults=0.0)
     if tier == "thorough":
         cs += exhaustive_small(rng)
     return cs
